@@ -56,7 +56,7 @@ Qed.
 (* one step keeps the invariant *)
 Lemma step_inv s o : Inv s -> Inv (fst (step s o)).
 Proof.
-  intros H. destruct o as [x|xs|xs|k x|k x|k|k|k| |xs| ]; simpl.
+  intros H. destruct o as [x|xs|xs|k x|k x|k|k|k| |xs| | | | ]; simpl.
   - intro a. simpl. unfold addindex. rewrite iget_iset, spec_lookup_app. simpl.
     rewrite (H a). destruct (N.eqb a (oid x)); reflexivity.
   - intro a. simpl. rewrite iget_fold_addindex, spec_lookup_app, (H a). reflexivity.
@@ -75,6 +75,9 @@ Proof.
   - intro a. reflexivity.
   - apply Inv_of_list.
   - intro b. apply iget_reindex.
+  - exact H.
+  - intro b. simpl. rewrite iget_fold_addindex, spec_lookup_app, (H b). reflexivity.
+  - apply Inv_of_list.
 Qed.
 
 (* the list component behaves as a plain list and the same outcome is reported *)
@@ -82,7 +85,7 @@ Lemma step_refines_list s o :
   Inv s -> items (fst (step s o)) = fst (list_step (items s) o)
            /\ snd (step s o) = snd (list_step (items s) o).
 Proof.
-  intros H. destruct o as [x|xs|xs|k x|k x|k|k|k| |xs| ]; simpl; try (split; reflexivity).
+  intros H. destruct o as [x|xs|xs|k x|k x|k|k|k| |xs| | | | ]; simpl; try (split; reflexivity).
   - rewrite (position_spec s k H). destruct (spec_position _ _); simpl; split; reflexivity.
   - rewrite (position_spec s k H). destruct (spec_position _ _); simpl; [|split; reflexivity].
     destruct (norm_index _ _); simpl; split; reflexivity.
@@ -102,7 +105,7 @@ Qed.
 (* an operation that raises leaves list and dict exactly as they were *)
 Lemma step_failed_noop s o e : snd (step s o) = Raise e -> fst (step s o) = s.
 Proof.
-  destruct o as [x|xs|xs|k x|k x|k|k|k| |xs| ]; simpl; try discriminate.
+  destruct o as [x|xs|xs|k x|k x|k|k|k| |xs| | | | ]; simpl; try discriminate.
   - destruct (position s k); simpl; [discriminate|reflexivity].
   - destruct (position s k); simpl; [|reflexivity].
     destruct (norm_index _ _); simpl; [discriminate|reflexivity].
@@ -114,6 +117,7 @@ Proof.
   - destruct (match k with KInt _ => None | KId a => iget (index s) a | KObj x => Some (ouid x) end);
       simpl; [|reflexivity].
     destruct (pos_of_uid _ _); simpl; [discriminate|reflexivity].
+  - intros _. reflexivity.
 Qed.
 
 Lemma run_inv ops : forall s, Inv s -> Inv (run s ops).
